@@ -196,4 +196,85 @@ def rewriteExprWith (s' : Stmt) : Local
       | _ => none
   | _ => none
 
+/-! ### commute_expr / left_reassociate_expr (data expressions only: the API rejects index
+    expressions) -/
+
+mutual
+/-- `e'` is `e` with the operands of exactly ONE `+` or `*` node swapped -/
+def commuteOnce : Expr → Expr → Bool
+  | .binop o a b, .binop o' a' b' =>
+    o == o' &&
+      (((o == .add || o == .mul) && exprEq' false [] [] a b' && exprEq' false [] [] b a')
+        || (commuteOnce a a' && exprEq' false [] [] b b')
+        || (exprEq' false [] [] a a' && commuteOnce b b'))
+  | .usub a, .usub a' => commuteOnce a a'
+  | .extern f as, .extern g bs => f == g && commuteOnceL as bs
+  | _, _ => false
+def commuteOnceL : List Expr → List Expr → Bool
+  | a :: r, b :: r' =>
+    (commuteOnce a b && exprsEq' false [] [] r r') || (exprEq' false [] [] a b && commuteOnceL r r')
+  | _, _ => false
+end
+
+mutual
+/-- `e'` is `e` with exactly ONE node `a op (b op c)` (`op` = `+` or `*`) turned into
+    `(a op b) op c` -/
+def reassocOnce : Expr → Expr → Bool
+  | .binop o a b, .binop o' a' b' =>
+    o == o' &&
+      ((match b, a' with
+        | .binop o2 b1 c1, .binop o3 a2 b2 =>
+          (o == .add || o == .mul) && o2 == o && o3 == o && exprEq' false [] [] a a2 &&
+            exprEq' false [] [] b1 b2 && exprEq' false [] [] c1 b'
+        | _, _ => false)
+        || (reassocOnce a a' && exprEq' false [] [] b b')
+        || (exprEq' false [] [] a a' && reassocOnce b b'))
+  | .usub a, .usub a' => reassocOnce a a'
+  | .extern f as, .extern g bs => f == g && reassocOnceL as bs
+  | _, _ => false
+def reassocOnceL : List Expr → List Expr → Bool
+  | a :: r, b :: r' =>
+    (reassocOnce a b && exprsEq' false [] [] r r') || (exprEq' false [] [] a b && reassocOnceL r r')
+  | _, _ => false
+end
+
+/-- the model of a rewrite inside one data right-hand side: the input statement with the
+    right-hand side of the output statement `s'`, provided the two are related by `P` -/
+def dataRhsWith (P : Expr → Expr → Bool) (s' : Stmt) : Local
+  | .assign x idx rhs :: r => match s' with
+      | .assign _ _ rhs' => if P rhs rhs' then some (.assign x idx rhs' :: r) else none
+      | _ => none
+  | .reduce x idx rhs :: r => match s' with
+      | .reduce _ _ rhs' => if P rhs rhs' then some (.reduce x idx rhs' :: r) else none
+      | _ => none
+  | .writecfg c f rhs true :: r => match s' with
+      | .writecfg _ _ rhs' _ => if P rhs rhs' then some (.writecfg c f rhs' true :: r) else none
+      | _ => none
+  | _ => none
+
+def commuteExprWith (s' : Stmt) : Local := dataRhsWith commuteOnce s'
+def reassocExprWith (s' : Stmt) : Local := dataRhsWith reassocOnce s'
+
+/-! ### divide_with_recompute -/
+
+/-- `N_before_recompute`: `E - E % q` when the outer bound is literally `E / q`, else `ohi * q` -/
+def nBeforeRecompute (ohi : Expr) (q : Int) : Expr :=
+  match ohi with
+  | .binop .div E (.lit (.int q')) =>
+    if q' = q then .binop .sub E (.binop .mod E (.lit (.int q))) else .binop .mul ohi (.lit (.int q))
+  | _ => .binop .mul ohi (.lit (.int q))
+
+/-- `divide_with_recompute` (`DoDivideWithRecompute`): `for i in [lo, hi): B` ↦
+    `for io in [lo, ohi): for ii in [0, q + (hi - N_before)): B[i ↦ io * q + ii]`.  The lower bound of
+    the loop is KEPT as the lower bound of the outer loop (nothing requires it to be 0); the inner
+    loop is sequential. -/
+def divideWithRecompute (io ii : Sym) (ohi : Expr) (q : Int) : Local
+  | .loop i lo hi b par :: r =>
+    some (.loop io lo ohi
+      [.loop ii (.lit (.int 0))
+        (.binop .add (.lit (.int q)) (.binop .sub hi (nBeforeRecompute ohi q)))
+        (substL i (.binop .add (.binop .mul (.read io []) (.lit (.int q))) (.read ii [])) b) false]
+      par :: r)
+  | _ => none
+
 end Exo.Rw
